@@ -232,6 +232,14 @@ pub fn model_reply(model: &mut Model, h: &History) -> Option<String> {
     request(h).map(|r| model.call(&r))
 }
 
+/// only the named parts are computed by the model (the others come back as `(name skipped)`)
+pub fn model_reply_parts(model: &mut Model, h: &History, parts: &[&str]) -> Option<String> {
+    request(h).map(|r| {
+        let r = format!("{} (parts {}))", &r[..r.len() - 1], parts.join(" "));
+        model.call(&r)
+    })
+}
+
 /// the `md` part of state `step` of a model reply: (key, Ok(text) | Err(site))
 pub fn model_md(reply: &str, step: usize) -> Vec<(String, Result<String, String>)> {
     let states = dump::children(reply);
